@@ -24,6 +24,7 @@ from pydrobert.speech import util as _util
 
 PROPERTY = "C13"
 LEVEL = "exploration"
+WORKER_RLIMIT_AS = 6 << 30  # NumPy-only workers: an absurd allocation becomes MemoryError, not an OOM kill
 TIERS = {
     "quick": {"runs": 90000, "budget": 70, "selftest": 64, "shrink_budget": 300},
     "thorough": {"runs": 500000, "budget": 1500, "selftest": 2000, "shrink_budget": 800},
